@@ -78,13 +78,87 @@ func (e *Engine) load(p Value) Value {
 	return copyVal(*c)
 }
 
+// noteStore is the write-set instrumentation (C18 read-only operations, C12/C16 "unchanged"): a store of `new` over `old`
+// into an object that existed before the operation. The store counts only if the value can differ (the difference
+// becomes part of the obligation, so a counterexample really changes memory and reproduces natively).
+func (e *Engine) noteStore(o *Object, old, new Value) {
+	e.noteChange(o.ID <= e.watermark || o.Lazy, old, new, "store to an object that existed before a read-only operation")
+}
+
+func (e *Engine) noteChange(shared bool, old, new Value, msg string) {
+	if e.forcing > 0 || !shared || (!e.readonly && !e.tracking) {
+		return
+	}
+	var diff Value = true
+	old, new = e.fvQuiet(old), e.fvQuiet(new)
+	switch {
+	case isScalar(old) && isScalar(new) && sortOf(old) == sortOf(new):
+		diff = e.boolNot(e.eqVals(old, new))
+	case sameRef(old, new):
+		diff = false
+	}
+	if c, ok := diff.(bool); ok && !c {
+		return
+	}
+	if e.tracking {
+		e.changed = e.boolOr(e.changed, diff)
+	}
+	if e.readonly {
+		if _, ok := diff.(bool); ok {
+			e.fail("write", msg, "")
+		} else {
+			e.fail("write", msg, lit(diff))
+		}
+	}
+}
+
+// fvQuiet: a forced thunk's value, without forcing.
+func (e *Engine) fvQuiet(v Value) Value {
+	if t, ok := v.(*Thunk); ok && t.Forced {
+		return t.Val
+	}
+	return v
+}
+
+func sameRef(a, b Value) bool {
+	switch x := a.(type) {
+	case Nil:
+		_, ok := b.(Nil)
+		return ok
+	case *Ptr:
+		y, ok := b.(*Ptr)
+		return ok && x.Obj == y.Obj && pathEq(x.Path, y.Path) && x.Sym == nil && y.Sym == nil
+	case *SliceV:
+		y, ok := b.(*SliceV)
+		return ok && x.Arr == y.Arr && x.Off == y.Off && x.Len == y.Len && x.Cap == y.Cap
+	case *MapV:
+		y, ok := b.(*MapV)
+		return ok && x.M == y.M
+	case *Thunk:
+		return a == b
+	case *StructV:
+		y, ok := b.(*StructV)
+		if !ok || len(x.F) != len(y.F) {
+			return false
+		}
+		for i := range x.F {
+			if !(isScalar(x.F[i]) && isScalar(y.F[i]) && lit(x.F[i]) == lit(y.F[i])) && !sameRef(x.F[i], y.F[i]) {
+				return false
+			}
+		}
+		return true
+	case string:
+		y, ok := b.(string)
+		return ok && x == y
+	case *ssa.Function:
+		return a == b
+	}
+	return false
+}
+
+// checkWrite: a store whose old/new values are not tracked individually (always counts).
 func (e *Engine) checkWrite(o *Object) {
-	if e.tracking && e.forcing == 0 && (o.ID <= e.watermark || o.Lazy) {
-		e.writes++
-	}
-	if e.readonly && e.forcing == 0 && (o.ID <= e.watermark || o.Lazy) {
-		e.fail("write", "store to an object that existed before a read-only operation", "")
-	}
+	e.noteChange(o.ID <= e.watermark || o.Lazy, int64(0), int64(1), "store to an object that existed before a read-only operation")
 }
 
 func (e *Engine) store(p Value, v Value) {
@@ -92,15 +166,16 @@ func (e *Engine) store(p Value, v Value) {
 	if !ok {
 		e.goPanic("invalid memory address or nil pointer dereference")
 	}
-	e.checkWrite(pp.Obj)
 	if pp.Sym != nil {
 		cells := e.symCells(pp)
+		e.noteStore(pp.Obj, e.load(pp), v)
 		for j := 0; j < pp.N; j++ {
 			c := e.mk("Bool", fmt.Sprintf("(= %s %d)", pp.Sym.S, j))
 			cells[pp.Base+j] = e.ite(c, v, e.fv(cells[pp.Base+j]))
 		}
 		return
 	}
+	e.noteStore(pp.Obj, *cell(pp), v)
 	*cell(pp) = copyVal(v)
 }
 
@@ -1006,12 +1081,11 @@ func (e *Engine) run(fn *ssa.Function, args []Value, env []Value) Value {
 }
 
 func (e *Engine) checkWriteMap(m *MapObj) {
-	if e.tracking && e.forcing == 0 && (m.ID <= e.watermark || m.Lazy) {
-		e.writes++
-	}
-	if e.readonly && e.forcing == 0 && (m.ID <= e.watermark || m.Lazy) {
-		e.fail("write", "update of a map that existed before a read-only operation", "")
-	}
+	e.noteChange(m.ID <= e.watermark || m.Lazy, int64(0), int64(1), "update of a map that existed before a read-only operation")
+}
+
+func (e *Engine) noteMapStore(m *MapObj, old, new Value) {
+	e.noteChange(m.ID <= e.watermark || m.Lazy, old, new, "update of a map that existed before a read-only operation")
 }
 
 func (e *Engine) doCall(c *ssa.CallCommon, in *ssa.Call, get func(ssa.Value) Value) Value {
@@ -1384,10 +1458,8 @@ func (e *Engine) builtin(name string, a []Value, in *ssa.Call) Value {
 		}
 		if sl, ok := a[0].(*SliceV); ok {
 			el := in.Call.Args[0].Type().Underlying().(*types.Slice).Elem()
-			if sl.Len > 0 {
-				e.checkWrite(sl.Arr)
-			}
 			for i := int64(0); i < sl.Len; i++ {
+				e.noteStore(sl.Arr, sl.Arr.Val.(*StructV).F[sl.Off+i], zero(el))
 				sl.Arr.Val.(*StructV).F[sl.Off+i] = zero(el)
 			}
 		}
@@ -1413,8 +1485,8 @@ func (e *Engine) builtin(name string, a []Value, in *ssa.Call) Value {
 			return a[0]
 		}
 		if sn+tn <= sc {
-			e.checkWrite(sa)
 			for i := int64(0); i < tn; i++ {
+				e.noteStore(sa, sa.Val.(*StructV).F[so+sn+i], src[i])
 				sa.Val.(*StructV).F[so+sn+i] = copyVal(src[i])
 			}
 			return &SliceV{sa, so, sn + tn, sc}
@@ -1451,10 +1523,8 @@ func (e *Engine) builtin(name string, a []Value, in *ssa.Call) Value {
 		if int64(len(src)) < n {
 			n = int64(len(src))
 		}
-		if n > 0 {
-			e.checkWrite(da)
-		}
 		for i := int64(0); i < n; i++ {
+			e.noteStore(da, da.Val.(*StructV).F[do+i], src[i])
 			da.Val.(*StructV).F[do+i] = copyVal(src[i])
 		}
 		return n
